@@ -21,51 +21,6 @@ type hcase struct {
 	stream             []byte   // bytes served to the real code, then EOF
 	expect             [][]byte // control inputs only: the payloads a correct decoder returns (4-byte payload = ProtocolErr)
 	control            bool
-	body               int64 // bytes the first hostile prefix makes the reader want (-1 unknown); only used to skip repeats after dozens of GiB-allocation deaths
-}
-
-// firstBody parses the first length prefix of a stream the way the protocol's
-// reader will (harness-side estimate, used only for the skip rule).
-func firstBody(proto, mode byte, stream []byte) int64 {
-	if mode == mObfListen {
-		return -1
-	}
-	if mode == mListen {
-		switch detectLabel(stream) {
-		case "abridged":
-			proto, stream = pAbridged, stream[1:]
-		case "intermediate":
-			proto, stream = pIntermediate, stream[4:]
-		case "padded":
-			proto, stream = pPadded, stream[4:]
-		case "full":
-			proto = pFull
-		default:
-			return -1
-		}
-	} else if mode == mHeader {
-		h := header(proto)
-		if len(stream) < len(h) {
-			return -1
-		}
-		stream = stream[len(h):]
-	}
-	if proto == pAbridged {
-		if len(stream) < 1 {
-			return -1
-		}
-		if stream[0] < 127 {
-			return int64(stream[0]) * 4
-		}
-		if len(stream) < 4 {
-			return -1
-		}
-		return (int64(stream[1]) | int64(stream[2])<<8 | int64(stream[3])<<16) * 4
-	}
-	if len(stream) < 4 {
-		return -1
-	}
-	return int64(binary.LittleEndian.Uint32(stream))
 }
 
 func (h *hcase) encode() []byte {
